@@ -217,7 +217,7 @@ func sizesAround(counts ...int) []int {
 func (s c18Suite) Gen(rng *Rng, tier string, w *bufio.Writer, stats *Stats) {
 	nDB, perDB := 36, 14
 	if tier == "thorough" {
-		nDB, perDB = 300, 20
+		nDB, perDB = 220, 20
 	}
 	caseNo := 0
 	for d := 0; d < nDB; d++ {
